@@ -176,7 +176,7 @@ def main_c03():
     dts = [1e-6, 0.025, 1.0, 37.0, 1e3]
     xs = [0.0, 0.3, 1.0, float(rng.uniform(0, 1))]
     evals = 0
-    abstract_bad = confirmed = undecided = 0
+    abstract_bad = confirmed = undecided = seams = 0
     by_prog = {}
     for c in cells:
         by_prog.setdefault(c["prog"], []).append(c)
@@ -209,6 +209,30 @@ def main_c03():
                     chk.violation({**sig, "what": what},
                                   {"v": float(pts[i]), "outputs": [float(o1[i]), float(o2[i])], "abstract_bad_nodes": c["bad"],
                                    "cell": c})
+            # a removable singularity is filled continuously: through the neighbourhood of a root around which the program
+            # switches branches (ExprAbs.ThreshAt), every output stays on the chord between the outer neighbours
+            if c["pt"] and c.get("thr"):
+                x0 = float(fr(c["x"]))
+                H = 1e4 * max(float(fr(q)) for q in c["thr"])
+                near = np.abs(pts - x0) <= H * (1 + 1e-9)
+                outs = [o1, o2] if not is_syn else [np.asarray(upd(jnp.asarray(pts), 0.5, 1.0), dtype=float)]
+                ends = np.asarray([x0 - H, x0 + H])
+                eouts = ([np.asarray(o, dtype=float) for o in f(jnp.asarray(ends))] if not is_syn
+                         else [np.asarray(upd(jnp.asarray(ends), 0.5, 1.0), dtype=float)])
+                seams += 1
+                for o, e in zip(outs, eouts):
+                    if not (np.isfinite(e).all() and np.isfinite(o[near]).all()):
+                        continue            # reported above
+                    chord = e[0] + (e[1] - e[0]) * (pts[near] - ends[0]) / (2 * H)
+                    dev = np.abs(o[near] - chord)
+                    tol = 1e-3 * max(abs(e[0]), abs(e[1])) + 1e-12
+                    evals += int(near.sum())
+                    if (dev > tol).any():
+                        i = int(np.argmax(dev))
+                        chk.violation({**sig, "what": "output jumps inside the neighbourhood of a removable singularity"},
+                                      {"v": float(pts[near][i]), "offset_from_root": float(pts[near][i] - x0), "got": float(o[near][i]),
+                                       "chord": float(chord[i]), "ends": [float(e[0]), float(e[1])], "thresholds": c["thr"]})
+                        break
             for dt in dts:
                 for x in xs:
                     new = np.asarray(upd(jnp.asarray(pts), x, dt), dtype=float)
@@ -246,6 +270,7 @@ def main_c03():
     chk.set("abstract_nan_or_inf_cells", abstract_bad)
     chk.set("abstract_cells_confirmed_concretely", confirmed)
     chk.set("cells_with_unk_outputs", undecided)
+    chk.set("removable_singularities_checked_for_continuity", seams)
     chk.set("tlc_states", res.distinct)
     chk.set("rule", "TLC (ExprAbs.tla) derives the partition of [-200,200] mV from the traced rate programs (roots of affine nodes, "
                     "clip breakpoints) for every gate x parameter value; distinct_nontrivial = derived cells; each cell yields the point, "
@@ -297,6 +322,7 @@ def main_c04():
         evals += len(pts)
         worst = 0.0
         bad = None
+        badpts = set()
         for i, v in enumerate(pts):
             a = ssa.eval_tree(g["a"], v, params, mp)
             b = ssa.eval_tree(g["b"], v, params, mp)
@@ -304,6 +330,8 @@ def main_c04():
                 for dt, gnew in zip((0.025, 1.0), got):
                     want = a + (mp.mpf("0.3") - a) * mp.exp(-mp.mpf(dt) / b)
                     err = abs(mp.mpf(float(gnew[i])) - want) if math.isfinite(gnew[i]) else mp.inf
+                    if err > 1e-9:
+                        badpts.add(i)
                     if err > 1e-9 and bad is None:
                         bad = {"v": float(v), "dt": dt, "got": float(gnew[i]), "published": float(want)}
                 continue
@@ -313,12 +341,18 @@ def main_c04():
                 else:
                     err = abs(mp.mpf(float(got_)) - want)
                 tol = mp.mpf("1e-9") * abs(want) + mp.mpf("1e-7") if g["kind"] == "ab" else mp.mpf("1e-9") * (1 + abs(want))
+                if err > tol:
+                    badpts.add(i)
                 if err > tol and bad is None:
                     bad = {"v": float(v), "got": [float(o1[i]), float(o2[i])], "published": [float(a), float(b)]}
         if bad is not None:
-            if g["verified"] == "source_offline" or not math.isfinite(sum(np.atleast_1d(bad["got"]))):
+            # a transcription from memory is corroborated by the code itself when the two agree on (nearly) all of the
+            # seeded doubles: two different analytic formulas cannot; what remains is the code leaving its own formula
+            corroborated = len(badpts) <= 0.2 * len(pts)
+            bad["points_disagreeing"], bad["points"] = len(badpts), int(len(pts))
+            if g["verified"] == "source_offline" or corroborated or not math.isfinite(sum(np.atleast_1d(bad["got"]))):
                 chk.violation({"gate": gate, "param": pv, "what": "rate function differs from the published equation",
-                               "verified": g["verified"]}, bad)
+                               "verified": g["verified"] if g["verified"] == "source_offline" else "corroborated_elsewhere"}, bad)
             else:
                 # the published entry is transcribed from memory: a disagreement cannot be decided here
                 undecided[tag] = bad
@@ -392,7 +426,7 @@ def main_c04():
     for c in cells[:3]:
         chk.sample({"prog": c["prog"], "cell": cell_name(c)})
     chk.assume("the transcription of the published equations into Kinetics.tla is the trusted base; entries marked `recollection`/"
-               "`contested` can only yield UNDECIDED, never a violation (except non-finite values)", "mpmath")
+               "`contested` yield UNDECIDED when the code disagrees with them on more than a fifth of the points, and a violation when the disagreement is confined to fewer points (the rest corroborates the transcription) or the value is not finite", "mpmath")
     return chk.finish()
 
 
